@@ -307,6 +307,34 @@ def planGen (ts : List Task) (pinned : Bool) (args : List Tok) (dflt : Option (L
     let ts' := if single then applySingle (prepare ts) sel else prepare ts
     .ok { sel := sel, tasks := ts', closure := closureOf ts' sel }
 
+/-! ## the command line before selection: `DoitMain.process_args` (M8/M4 boundary)
+
+Every word of the command line that does not start with `-` and contains `=` is a *command-line variable*
+(`doit.get_var`): it is taken out before the sub-command sees its arguments — wherever it stands, also where the user
+meant it as the detached value of a task option (`t --val a=b x` reaches the selection as `t --val x`), and a target whose
+name contains `=` cannot be named.  `default_tasks` come from the configuration and are not filtered. -/
+
+def isVarWord (a : Tok) : Bool :=
+  match a with
+  | [] => false
+  | c :: _ => c != '-' && a.contains '='
+
+def stripVars (args : List Tok) : List Tok := args.filter (fun a => !isVarWord a)
+
+/-- `DoitMain.process_args` (since 0ab6253 it tests `arg[:1]`): total; an empty word is not a variable, it stays on the
+    command line and is then looked up like any other word (as a name: not found; after an option that takes a value
+    or after a `pos_arg` task: a value) -/
+def cliArgs (args : List Tok) : List Tok := stripVars args
+
+/-- before 0ab6253 (F-C12-empty-word-crash) `process_args` evaluated `arg[0]`: an empty word anywhere on the command line
+    raised IndexError outside the `try` of `DoitMain.run` (`none`) -/
+def pinnedCliArgs (args : List Tok) : Option (List Tok) :=
+  if args.contains [] then none else some (stripVars args)
+
+/-- `doit run [--single] ARGS` from the command line -/
+def planCli (ts : List Task) (args : List Tok) (dflt : Option (List Tok)) (single : Bool) : Except Err Plan :=
+  planGen ts false (stripVars args) dflt single
+
 /-- index of the first occurrence -/
 def idxOf (l : List Tok) (a : Tok) : Nat := l.findIdx (· == a)
 
